@@ -2,7 +2,7 @@
 # Regression jobs that do not touch /repo: meant for `vp run --with-repo -- ./tools_regress_snapshot.sh <what>`,
 # i.e. inside a snapshot of /verif with its own snapshot of /repo in $VP_RUN_REPO. The simulator
 # crates are pointed at that copy, patches are applied to it, and every check's quick tier runs
-# there.   what = neutral | seeded | neutral-wire (wire-sim and miri parts only)
+# there.   what = neutral [ids] | seeded | new-seeded <ids> | neutral-wire (wire-sim part only)
 set -u
 what=${1:-neutral}; shift || true
 ONLY="$*"   # optional list of ids (neutral) to restrict to
@@ -29,6 +29,18 @@ neutral|neutral-wire)
     done
     restore
     echo "$id: $ok/$n silent"
+  done ;;
+new-seeded)
+  # new-seeded <id>... : ids like S10-C07 (property taken from the id); both build profiles
+  for id in $ONLY; do
+    p=$(echo "$id" | sed 's/.*-\(C[0-9][0-9]\).*/\1/')
+    git -C "$REPO" apply "$HERE/seeded/$id/patch.diff" || { echo "$id: patch does not apply"; bad=1; continue; }
+    res=$(VERIF_MIRI=${VERIF_MIRI:-0} VERIF_SECOND_PASS=0 ./check "$p" quick 2>&1); code=$?
+    echo "$id $p exit=$code $(echo "$res" | grep -E '^violation:|HARNESS' | head -1 | cut -c1-330)"
+    res=$(VERIF_MIRI=0 VERIF_PROFILE=nochecks ./check "$p" quick 2>&1); code2=$?
+    echo "$id $p nochecks exit=$code2 $(echo "$res" | grep -E '^violation:|HARNESS' | head -1 | cut -c1-230)"
+    [ $code = 1 ] || bad=1
+    restore
   done ;;
 seeded)
   n=0
